@@ -1,7 +1,9 @@
 """C06 CAS files are immutable and never partially visible: effect ownership over cas/."""
 from ..ctx import sem, sem_set
 from ..events import is_cas_class
+from ..effects import norm
 from ..prov import Slicer, fmt_leaf
+from ..vfg import place_of
 from . import order
 from .base import Rule, site_construct, site_where
 
@@ -97,71 +99,97 @@ def rules(ctx, tier):
     return out
 
 
-def publish_provenance(ctx, r):
-    """In the body holding the publish rename: src is a parameter, dst is cas-path(hash parameter).
-    At every call of that body: src derives from the temp file owned by the caller's `self`, the
-    hash from finalize() of the hasher owned by the same `self`."""
+def leaf_root_adt(prog, body, l):
+    """ADT (through references) of the parameter a param/xparam leaf is rooted at."""
+    if l[0] == "param":
+        return prog.adt_of(body.locals[l[1]])[0]
+    if l[0] == "xparam":
+        return prog.adt_of(prog.bodies[l[1][0]].locals[l[1][1]])[0]
+    return None
+
+
+def rooted_in_txn_field(ctx, sl, leaves, txn, field_def):
+    """All leaves are `<transaction value>.<field>` where the field's type is `field_def` (the transaction may have
+    been taken apart into an internal struct or passed to a private helper field by field)."""
     prog = ctx.prog
+    if not leaves:
+        return False
+    for x in leaves:
+        if x[0] not in ("param", "xparam") or len(x[2]) != 1:
+            return False
+        if leaf_root_adt(prog, sl.body, x) != txn:
+            return False
+        fld = [f for f in prog.adts[txn]["variants"][0]["fields"] if f["name"] == x[2][0]]
+        if not fld:
+            return False
+        t = prog.types[fld[0]["ty"]]
+        if not (t.get("k") == "adt" and norm(t["def"]) == field_def):
+            return False
+    return True
+
+
+def publish_provenance(ctx, r):
+    """At the publish rename: src is the path() of the transaction's own NamedTempFile, dst is cas-path(h) where h is
+    finalize() of the same transaction's hasher - through however many private helpers the values are handed."""
+    from .c13 import txn_type
+    prog = ctx.prog
+    txns = txn_type(ctx)
+    r.check(len(txns) == 1, "txn-type", None, "transaction type %s" % txns, "cannot find the transaction type: %s" % txns)
+    if len(txns) != 1:
+        return
+    txn = txns[0]
     for e in ctx.fx.of_kind("FS_RENAME"):
         if not (e.classes2 and e.classes2 <= {"CAS_BLOB"}):
             continue
         site = e.site
         body = site.body
         sl = Slicer(ctx.world, body)
-        src = sl.leaves_of_operand(site.term["args"][0])
-        dst = sl.leaves_of_operand(site.term["args"][1])
-        src_params = set(l[1] for l in src if l[0] == "param")
-        r.check(len(src) == 1 and len(src_params) == 1, "rename-src", body,
-                "rename source is parameter #%s of %s" % (sorted(src_params), body.path),
-                "rename source at %s has origins %s (expected one parameter)" % (
-                    site_where(site), sorted(fmt_leaf(l) for l in src)), site_where(site))
-        # dst: result of a call whose callee builds CAS_BLOB paths from a hash parameter
+        src = sl.leaves_up(site.term["args"][0], depth=5)
+        ok1 = bool(src)
+        for l in src:
+            if l[0] == "call" and l[1] == "tempfile::NamedTempFile::path":
+                t = sl.call_at(l[2])
+                inner = sl.at(l[2]).leaves_up(t["args"][0], depth=5)
+                ok1 = ok1 and rooted_in_txn_field(ctx, sl.at(l[2]), inner, txn, "tempfile::NamedTempFile")
+            else:
+                ok1 = False
+        r.check(ok1, "publish-arg:staging", body,
+                "the file renamed into cas/ at %s is the path of the transaction's own temp file" % site_where(site),
+                "the rename source at %s has origins %s (expected NamedTempFile::path of the transaction's temp file)"
+                % (site_where(site), sorted(fmt_leaf(l) for l in src)), site_where(site))
+        # dst: result of a call whose callee builds CAS_BLOB paths from a hash
+        dst = sl.leaves_up(site.term["args"][1], depth=5)
         dst_calls = [l for l in dst if l[0] == "call"]
-        hash_params = set()
+        hash_ty = ctx.anchors.get("HASH")
         okd = len(dst) == 1 and len(dst_calls) == 1
+        hleaves = set()
+        hsl = sl
         if okd:
             t = sl.call_at(dst_calls[0][2])
-            hash_ty = ctx.anchors.get("HASH")
+            hsl = sl.at(dst_calls[0][2])
+            okd = False
             for a in t["args"]:
-                for l in sl.leaves_of_operand(a):
-                    if l[0] == "param" and prog.adt_of(body.locals[l[1]])[0] == hash_ty:
-                        hash_params.add(l[1])
-            okd = len(hash_params) == 1
+                pl = place_of(a)
+                if pl is None or prog.adt_of(hsl.body.locals[pl["l"]])[0] != hash_ty or pl["p"] not in ([], ["deref"]):
+                    continue
+                okd = True
+                hleaves |= hsl.leaves_up(a, depth=5)
         r.check(okd, "rename-dst", body,
-                "rename destination is the CAS path of hash parameter #%s" % sorted(hash_params),
-                "rename destination at %s has origins %s (expected cas-path(hash parameter))" % (
+                "rename destination at %s is the CAS path of a hash value" % site_where(site),
+                "rename destination at %s has origins %s (expected cas-path(hash))" % (
                     site_where(site), sorted(fmt_leaf(l) for l in dst)), site_where(site))
-        if len(src_params) != 1 or len(hash_params) != 1:
+        if not okd:
             continue
-        sp = list(src_params)[0]
-        hp = list(hash_params)[0]
-        for (csite, how) in prog.callers_index().get(body.path, []):
-            cb = csite.body
-            csl = Slicer(ctx.world, cb)
-            a_src = csl.leaves_of_operand(csite.term["args"][sp - 1])
-            a_hash = csl.leaves_of_operand(csite.term["args"][hp - 1])
-            # src: NamedTempFile::path(self.<field>)
-            ok1 = False
-            for l in a_src:
-                if l[0] == "call" and l[1] == "tempfile::NamedTempFile::path":
-                    t = csl.call_at(l[2])
-                    inner = csl.leaves_of_operand(t["args"][0])
-                    ok1 = all(x[0] == "param" and x[1] == 1 and len(x[2]) == 1 for x in inner) and len(inner) == 1
-            ok1 = ok1 and len(a_src) == 1
-            r.check(ok1, "publish-arg:staging", cb,
-                    "staging path passed at %s is the path of the transaction's own temp file" % site_where(csite),
-                    "staging path passed to %s at %s has origins %s" % (body.path, site_where(csite),
-                                                                        sorted(fmt_leaf(l) for l in a_src)),
-                    site_where(csite))
-            ok2 = False
-            for l in a_hash:
-                if l[0] == "call" and l[1] == "blake3::Hasher::finalize":
-                    t = csl.call_at(l[2])
-                    inner = csl.leaves_of_operand(t["args"][0])
-                    ok2 = all(x[0] == "param" and x[1] == 1 and len(x[2]) == 1 for x in inner) and len(inner) == 1
-            ok2 = ok2 and len(a_hash) == 1
-            r.check(ok2, "publish-arg:hash", cb,
-                    "hash passed at %s is finalize() of the transaction's own hasher" % site_where(csite),
-                    "hash passed to %s at %s has origins %s" % (body.path, site_where(csite),
-                                                                sorted(fmt_leaf(l) for l in a_hash)),
-                    site_where(csite))
+        ok2 = bool(hleaves)
+        for l in hleaves:
+            if l[0] == "call" and l[1] == "blake3::Hasher::finalize":
+                t = hsl.call_at(l[2])
+                inner = hsl.at(l[2]).leaves_up(t["args"][0], depth=5)
+                ok2 = ok2 and rooted_in_txn_field(ctx, hsl.at(l[2]), inner, txn, "blake3::Hasher")
+            else:
+                ok2 = False
+        r.check(ok2, "publish-arg:hash", body,
+                "the hash naming the published file at %s is finalize() of the transaction's own hasher" %
+                site_where(site),
+                "the hash naming the published file at %s has origins %s (expected finalize() of the transaction's "
+                "hasher)" % (site_where(site), sorted(fmt_leaf(l) for l in hleaves)), site_where(site))
